@@ -59,9 +59,29 @@ _sp = _ilu.spec_from_file_location("units_array", _os.path.join(_os.path.dirname
 _arr = _ilu.module_from_spec(_sp)
 _sp.loader.exec_module(_arr)
 UNITS += _arr.units("C03")
+# Array<T>: one operation on a hand-built array (capacity 3, <= 3 live elements): bounded stand-ins
+SSRCS = ["harness/array_step.cpp", "@TREE@/src/Memory.cpp"]
+
+
+def S(name, entry, reach, **kw):
+    d = U(name, entry, None, reach, srcs=SSRCS, funcs=["Array<T>::" + name.split(".")[0]], kind="bounded",
+          bound="one operation on an array of capacity 3 with at most 3 elements (values symbolic; growth 3 -> 7 inside)",
+          cbmc=["--unwind", "9", "--unwinding-assertions"], timeout=1800, **kw)
+    d["name"] = "Array." + name
+    return d
+
+
+UNITS += [
+    S("append.step", "h_s_append", ["s_append.own_element_grows", "s_append.fits"]),
+    # (a fixed `self` flag makes cbmc exhaust 24 GB; the symbolic one finishes in ~14 min: thorough tier)
+    S("append_array.step", "h_s_append_array", ["s_append_array.self_grows", "s_append_array.fits"], tier="thorough", heavy=True, mem_gb=44),
+    S("assign.step", "h_s_assign", ["s_assign.self", "s_assign.other"]),
+    S("remove.step", "h_s_remove", ["s_remove.middle"]),
+    S("resize+clear.step", "h_s_resize", ["s_resize.own_element_grows", "s_resize.shrink"]),
+]
 TRUSTED = ["cbmc 6.11.0 / goto-instrument DFCC / CaDiCaL", "goto-cc C++ front end; List.hpp with compat rule R1"]
 ASSUMPTIONS = [
-    "List: step contracts + bounded whole-list units.  PoolList: step contracts for append() (default-constructed element; the argument-taking overloads are member templates goto-cc cannot instantiate), remove(iterator), remove(const T&), removeFront, removeBack, swap over a symbolic neighbourhood; clear() is a bounded stand-in (<= 2 elements); destruction not covered.  Array: NOT covered (bounded whole-array units are parked: they exhaust memory on the repaired tree, see units/_array_units.py)",
+    "List: step contracts + bounded whole-list units.  PoolList: step contracts for append() (default-constructed element; the argument-taking overloads are member templates goto-cc cannot instantiate), remove(iterator), remove(const T&), removeFront, removeBack, swap over a symbolic neighbourhood; clear() is a bounded stand-in (<= 2 elements); destruction not covered.  Array: bounded stand-ins, ONE real operation on a hand-built array of capacity 3 with <= 3 elements (growth 3 -> 7 inside): append(value / a[j]), operator= (incl. self), remove(index / iterator), resize (incl. resize(n, a[j])) + clear in the quick tier, append(array) (incl. self) in the thorough tier; reserve alone, copy construction, find, swap, destruction and histories are not covered (the whole-history units of units/_array_units.py are parked: they exhaust memory)",
     "step contracts (insert, remove, swap) hold for ANY list: the neighbourhood (position, predecessor, free item, sentinel) is symbolic, "
     "the rest of the list is unconstrained; sequence semantics follows from the relinking postconditions by induction over operations (paper)",
     "operations that walk the whole list: copy, clear, find, ==, !=, append(list), destruction are BOUNDED stand-ins (<= 3 elements) and not counted as proved; "
@@ -69,4 +89,4 @@ ASSUMPTIONS = [
     "List element construction / destruction counts (C04) are not checked: goto-cc does not run member destructors in explicit destructor calls; PoolList / Array counts are (element class named T)",
 ]
 EXPLANATION = ("List::insert / remove / swap are verified against relinking contracts with exact frames over symbolic neighbourhoods; "
-               "whole-list operations are checked on bounded lists against a reference sequence; PoolList step contracts.")
+               "whole-list operations are checked on bounded lists against a reference sequence; PoolList step contracts; Array single-operation bounded units.")
